@@ -153,6 +153,10 @@ func mergeRefs(ab *cmdsPair, a, b *cmd) {
 			}
 		} else if _, found := ab.a.lookup[prefix][bName]; found && ab.b.isRaw {
 			errlog.Abort("Name clash for '%s %s' from raw", prefix, bName)
+		} else if isReferenced[refCmd] && ab.b.isRaw {
+			// Has already been merged with command from Netspoc.
+			errlog.Abort("Must reference '%s %s' only once in raw",
+				prefix, bName)
 		}
 		isReferenced[refCmd] = true
 		refPair := *ab
